@@ -531,7 +531,11 @@ func (gb *gcpBalancer) UpdateSubConnState(sc balancer.SubConn, scs balancer.SubC
 			gb.log.Infof("handle replacement SubConn state change: %p, %v", sc, s)
 		}
 		if s != connectivity.Ready {
-			// Ignore the replacement sc until it's ready.
+			// Ignore the replacement sc until it's ready, but keep it connecting: a SubConn
+			// whose connection attempt failed goes Idle and waits for Connect().
+			if s == connectivity.Idle {
+				sc.Connect()
+			}
 			return
 		}
 
